@@ -346,10 +346,230 @@ static void run_purge(State& S) {
   free_all(S);
 }
 
+
+// ---- exact scenarios: the harness knows which ranges became unused and when, and demands that exactly those are returned -------------------------------------------
+static uint64_t g_px_checked = 0, g_px_rounds = 0, g_px_arenas = 0, g_px_bytes = 0;
+static void purgex_print(FILE* f) {
+  fprintf(f, ",\"purge_exact\":{\"delay\":%ld,\"mult\":%ld,\"ranges_checked\":%llu,\"rounds\":%llu,\"arenas\":%llu,\"bytes_checked\":%llu}", g_p_delay, g_p_mult,
+          (unsigned long long)g_px_checked, (unsigned long long)g_px_rounds, (unsigned long long)g_px_arenas, (unsigned long long)g_px_bytes);
+}
+static void tick(State& S, long ms) { if (ms > 0) { vf_clock_advance_ms(ms); S.n_clock_ms += (uint64_t)ms; } }
+// ordinary activity that frees no segment: small and medium blocks come and go in the thread's normal segment, which a long-lived block keeps alive
+static void small_activity(State& S, vf_rng_t* r, int n) {
+  for (int i = 0; i < n; i++) {
+    vf::Blk* b = do_alloc(S, EP_malloc, 16 + (size_t)vf_rng_below(r, 900));
+    vf::Blk* b2 = do_alloc(S, EP_malloc, 2000 + (size_t)vf_rng_below(r, 9000));
+    if (b) do_free(S, b);
+    if (b2) do_free(S, b2);
+  }
+}
+
+// "arenas": whole segments (one huge block each) are freed at different virtual times into several arenas, over several rounds; afterwards only segment-free-less activity and
+// non-forced collects happen.  Every freed range must be returned once delay*mult has passed (a pass purges at most two arenas, so the wait scales with the number of arenas).
+static void run_purge_arenas(State& S) {
+  add_result_printer(&purgex_print);
+  S.sm.refutes_generic = "C01";
+  const long d = mi_option_get(mi_option_purge_delay), mult = mi_option_get(mi_option_arena_purge_mult);
+  g_p_delay = d; g_p_mult = mult;
+  const long ad = (d > 0 ? d * (mult > 0 ? mult : 1) : d);      // arena delay
+  vf_rng_t r; vf_rng_seed(&r, S.cfg.seed);
+  vf::Blk* keep = do_alloc(S, EP_malloc, 100);                  // long-lived data: the thread's normal segment never becomes free
+  (void)keep;
+  small_activity(S, &r, 20);
+  const int rounds = 2 + (int)vf_rng_below(&r, 3);
+  const int nblocks = 4 + (int)vf_rng_below(&r, 7);
+  struct Rng { uintptr_t lo; size_t len; };
+  for (int round = 0; round < rounds; round++) {
+    g_px_rounds++;
+    std::vector<vf::Blk*> hs;
+    for (int i = 0; i < nblocks; i++) { vf::Blk* b = do_alloc(S, EP_malloc, 17 * MiB + (size_t)vf_rng_below(&r, (round % 2 ? 40 : 12) * MiB)); if (b) { memset(b->p, 0x30 + i, b->u); S.sm.fill(b); hs.push_back(b); } }
+    std::vector<ArenaArea> as = arena_areas();
+    if (as.size() > g_px_arenas) g_px_arenas = as.size();
+    vf_os_counts_t c0; vf_os_get_counts(&c0);
+    // free in a random order with random gaps (0 .. 1.6 x the arena delay), small activity in between
+    std::vector<Rng> freed;
+    while (!hs.empty()) {
+      size_t k = (size_t)vf_rng_below(&r, hs.size());
+      vf::Blk* b = hs[k]; hs[k] = hs.back(); hs.pop_back();
+      Rng g; g.lo = ((uintptr_t)b->p + 4095) & ~(uintptr_t)4095; g.len = (b->u - (g.lo - (uintptr_t)b->p)) & ~(size_t)4095;
+      bool arena_mem = in_arena(as, g.lo, g.lo + g.len);
+      do_free(S, b);
+      if (arena_mem || d >= 0) freed.push_back(g);
+      if (d == 0) {
+        size_t res = vf_os_committed_resident(g.lo, g.len);
+        g_px_checked++; g_px_bytes += g.len;
+        if (res > 0) vf_trip("not-purged-immediately", "C18", "purge_delay=0: a freed %zu byte block that had a segment of its own still has %zu committed resident bytes right after mi_free", g.len, res);
+      }
+      if (ad > 0) { static const int gaps[] = { 0, 0, 10, 30, 60, 90, 110, 160 }; tick(S, ad * gaps[vf_rng_below(&r, 8)] / 100); }
+      if (vf_rng_chance(&r, 1, 2)) small_activity(S, &r, 5);
+    }
+    if (d < 0) {
+      small_activity(S, &r, 50); tick(S, 100000); mi_collect(false);
+      vf_os_counts_t c1; vf_os_get_counts(&c1);
+      if (c1.purge_calls != c0.purge_calls) vf_trip("purged-although-disabled", "C18", "purge_delay=-1 but %llu purge calls were made without a forced collect", (unsigned long long)(c1.purge_calls - c0.purge_calls));
+      continue;
+    }
+    if (d > 0) {
+      // wait: each step lets the arena delay pass once, with activity that frees no segment, and (in most steps) a non-forced collect
+      const int steps = 4 + 2 * (int)as.size();
+      const bool collects = !vf_rng_chance(&r, 1, 4);       // in a quarter of the cases only the frees of the next round drive the purging: then nothing is judged here
+      for (int st = 0; st < steps; st++) { tick(S, ad + 1); small_activity(S, &r, 10); if (collects) { vf_cur_what = "non-forced collect"; mi_collect(false); } }
+      if (collects) for (const Rng& g : freed) {
+        size_t res = vf_os_committed_resident(g.lo, g.len);
+        g_px_checked++; g_px_bytes += g.len;
+        if (res > 0)
+          vf_trip("not-purged-after-delay", "C18", "purge_delay=%ld x arena multiplier %ld, %zu arenas, round %d: a whole free segment (%zu bytes at %p, freed more than %d delays ago) still has %zu committed "
+                  "resident bytes after %d non-forced collects and ordinary activity", d, mult, as.size(), round, g.len, (void*)g.lo, steps, res, steps);
+      }
+    }
+  }
+  S.sm.verify_all("after purging");
+  free_all(S);
+}
+
+// "trickle": a page inside a live segment becomes unused; afterwards the thread keeps allocating NEW pages in the same segment at intervals shorter than the delay and never frees
+// anything there.  The unused page must be returned once the delay has passed (the allocations are the "ordinary later activity"; none of them re-uses the pending range).
+static void run_purge_trickle(State& S) {
+  add_result_printer(&purgex_print);
+  S.sm.refutes_generic = "C01";
+  const long d = mi_option_get(mi_option_purge_delay), mult = mi_option_get(mi_option_arena_purge_mult);
+  g_p_delay = d; g_p_mult = mult;
+  vf_rng_t r; vf_rng_seed(&r, S.cfg.seed);
+  vf::Blk* keep = do_alloc(S, EP_malloc, 100); (void)keep;
+  // victims: blocks of 130..300 KiB (a page of their own), each between two live neighbours of the same kind so that the freed span cannot coalesce into something larger
+  const int nv = 1 + (int)vf_rng_below(&r, 4);
+  std::vector<vf::Blk*> vict, guard;
+  for (int i = 0; i < nv; i++) {
+    vf::Blk* g0 = do_alloc(S, EP_malloc, 200 * KiB); vf::Blk* x = do_alloc(S, EP_malloc, 130 * KiB + (size_t)vf_rng_below(&r, 170 * KiB)); vf::Blk* g1 = do_alloc(S, EP_malloc, 200 * KiB);
+    if (!g0 || !x || !g1) return;
+    memset(x->p, 0x66, x->u); S.sm.fill(x);
+    guard.push_back(g0); guard.push_back(g1); vict.push_back(x);
+  }
+  const uintptr_t seg = (uintptr_t)vict[0]->p & ~(uintptr_t)(32 * MiB - 1);
+  struct Rng { uintptr_t lo; size_t len; };
+  std::vector<Rng> freed;
+  vf_os_counts_t c0; vf_os_get_counts(&c0);
+  for (vf::Blk* x : vict) {
+    Rng g; g.lo = ((uintptr_t)x->p + 4095) & ~(uintptr_t)4095; g.len = (x->u - (g.lo - (uintptr_t)x->p)) & ~(size_t)4095;
+    do_free(S, x); freed.push_back(g);
+  }
+  g_px_rounds = 1;
+  if (d == 0) {
+    for (const Rng& g : freed) { size_t res = vf_os_committed_resident(g.lo, g.len); g_px_checked++; g_px_bytes += g.len;
+      if (res > 0) vf_trip("not-purged-immediately", "C18", "purge_delay=0: a freed %zu byte page inside a live segment still has %zu committed resident bytes right after mi_free", g.len, res); }
+    free_all(S); return;
+  }
+  // trickle: new 480 KiB pages (larger than any victim span) in the same segment, every `iv` ms, iv < delay
+  const long iv = (d > 0 ? std::max<long>(1, d / 10 + (long)vf_rng_below(&r, (uint64_t)std::max<long>(1, d - d / 10 - 1))) : 5);
+  long elapsed = 0; int in_seg = 0;
+  std::vector<vf::Blk*> tr;
+  for (int i = 0; i < 40; i++) {
+    tick(S, iv); elapsed += iv;
+    vf::Blk* b = do_alloc(S, EP_malloc, 480 * KiB); if (!b) break;
+    tr.push_back(b);
+    if (((uintptr_t)b->p & ~(uintptr_t)(32 * MiB - 1)) != seg) break;      // the segment is full: no further activity reaches it
+    in_seg++;
+  }
+  vf_os_counts_t c1; vf_os_get_counts(&c1);
+  if (d < 0) {
+    if (c1.purge_calls != c0.purge_calls) vf_trip("purged-although-disabled", "C18", "purge_delay=-1 but %llu purge calls were made without a forced collect", (unsigned long long)(c1.purge_calls - c0.purge_calls));
+  }
+  else if (in_seg >= 8 && (long)(in_seg - 2) * iv > 3 * d) {
+    // at least 3 delays passed while pages were still being allocated in that segment
+    for (const Rng& g : freed) {
+      size_t res = vf_os_committed_resident(g.lo, g.len); g_px_checked++; g_px_bytes += g.len;
+      if (res > 0)
+        vf_trip("not-purged-after-delay", "C18", "purge_delay=%ld: a %zu byte page inside a live segment became unused %ld ms ago; since then %d new pages were allocated in that segment (one every %ld ms, none re-using "
+                "the range, nothing freed) but %zu bytes of it are still committed and resident", d, g.len, elapsed, in_seg, iv, res);
+    }
+  }
+  S.sm.verify_all("after purging");
+  free_all(S);
+}
+
+
+// "holes": many one-block pages in the same segments, a subset of them is freed (hole patterns in the segment's pending-purge mask: runs that end in the middle of a 64-slice
+// group, runs that start at a group boundary, single slices ...); after the delay one more page of each segment is freed: that free must run all delayed purges of the segment.
+static void run_purge_holes(State& S) {
+  add_result_printer(&purgex_print);
+  S.sm.refutes_generic = "C01";
+  const long d = mi_option_get(mi_option_purge_delay), mult = mi_option_get(mi_option_arena_purge_mult);
+  g_p_delay = d; g_p_mult = mult;
+  vf_rng_t r; vf_rng_seed(&r, S.cfg.seed);
+  vf::Blk* keep = do_alloc(S, EP_malloc, 100); (void)keep;
+  const int mode = (int)vf_rng_below(&r, 4);          // block sizes: 0 = 480 KiB, 1 = 200 KiB, 2 = mixed 130..900 KiB, 3 = mixed 66..260 KiB (1..5 slices)
+  const int pat = (int)vf_rng_below(&r, 4);           // which blocks stay live: 0 = random half, 1 = every k-th, 2 = those covering slice t mod 64, 3 = random eighth
+  const size_t kth = 2 + (size_t)vf_rng_below(&r, 7), tmod = (size_t)vf_rng_below(&r, 64);
+  std::vector<vf::Blk*> bs;
+  size_t total = 0;
+  while (total < 72 * MiB) {
+    size_t sz = (mode == 0 ? 480 * KiB : mode == 1 ? 200 * KiB : mode == 2 ? 130 * KiB + (size_t)vf_rng_below(&r, 770 * KiB) : 130 * KiB + (size_t)vf_rng_below(&r, 130 * KiB));
+    if (mode == 3 && vf_rng_chance(&r, 1, 3)) sz = 129 * KiB;     // large page of 3 slices
+    vf::Blk* b = do_alloc(S, EP_malloc, sz); if (!b) break;
+    memset(b->p, 0x77, b->u); S.sm.fill(b);
+    bs.push_back(b); total += b->u;
+  }
+  struct Rng { uintptr_t lo; size_t len; uintptr_t seg; };
+  auto rng_of = [](vf::Blk* x) { Rng g; g.lo = ((uintptr_t)x->p + 4095) & ~(uintptr_t)4095; g.len = (x->u - (g.lo - (uintptr_t)x->p)) & ~(size_t)4095; g.seg = (uintptr_t)x->p & ~(uintptr_t)(32 * MiB - 1); return g; };
+  std::vector<Rng> freed; std::vector<vf::Blk*> live;
+  vf_os_counts_t c0; vf_os_get_counts(&c0);
+  for (size_t i = 0; i < bs.size(); i++) {
+    vf::Blk* x = bs[i];
+    const size_t s0 = ((uintptr_t)x->p & (32 * MiB - 1)) / (64 * KiB), s1 = (((uintptr_t)x->p + x->u - 1) & (32 * MiB - 1)) / (64 * KiB);
+    bool stay;
+    switch (pat) {
+      case 0: stay = vf_rng_chance(&r, 1, 2); break;
+      case 1: stay = (i % kth) == 0; break;
+      case 2: stay = false; for (size_t q = s0; q <= s1; q++) if ((q % 64) == tmod) stay = true; break;
+      default: stay = vf_rng_chance(&r, 1, 8); break;
+    }
+    if (stay) { live.push_back(x); continue; }
+    Rng g = rng_of(x);
+    do_free(S, x); freed.push_back(g);
+    if (d == 0) {
+      size_t res = vf_os_committed_resident(g.lo, g.len); g_px_checked++; g_px_bytes += g.len;
+      if (res > 0) vf_trip("not-purged-immediately", "C18", "purge_delay=0: a freed %zu byte page inside a live segment still has %zu committed resident bytes right after mi_free", g.len, res);
+    }
+  }
+  g_px_rounds = 1;
+  if (d > 0) {
+    tick(S, 3 * d + 200);          // every further free extends a pending expiry by purge_extend_delay (1 ms): be generous
+    // one more free per segment that still has live pages
+    std::vector<uintptr_t> segs_done;
+    for (size_t i = 0; i < live.size(); ) {
+      Rng g = rng_of(live[i]);
+      if (std::find(segs_done.begin(), segs_done.end(), g.seg) != segs_done.end()) { i++; continue; }
+      // the segment must keep another live page, otherwise it is freed as a whole (that is the arena scenario)
+      size_t others = 0; for (size_t j = 0; j < live.size(); j++) if (j != i && rng_of(live[j]).seg == g.seg) others++;
+      if (others == 0) { i++; continue; }
+      segs_done.push_back(g.seg);
+      do_free(S, live[i]); freed.push_back(g);
+      live[i] = live.back(); live.pop_back();
+    }
+    for (const Rng& g : freed) {
+      if (std::find(segs_done.begin(), segs_done.end(), g.seg) == segs_done.end()) continue;     // no later activity reached that segment
+      size_t res = vf_os_committed_resident(g.lo, g.len); g_px_checked++; g_px_bytes += g.len;
+      if (res > 0)
+        vf_trip("not-purged-after-delay", "C18", "purge_delay=%ld: a %zu byte page at %p (slice %zu of its segment) became unused, %ld ms later another page of the same segment was freed (which runs the "
+                "segment's delayed purges) but %zu bytes of it are still committed and resident (sizes mode %d, pattern %d)", d, g.len, (void*)g.lo, (size_t)((g.lo - g.seg) / (64 * KiB)), 3 * d + 200, res, mode, pat);
+    }
+  }
+  else if (d < 0) {
+    tick(S, 100000); small_activity(S, &r, 50); mi_collect(false);
+    vf_os_counts_t c1; vf_os_get_counts(&c1);
+    if (c1.purge_calls != c0.purge_calls) vf_trip("purged-although-disabled", "C18", "purge_delay=-1 but %llu purge calls were made without a forced collect", (unsigned long long)(c1.purge_calls - c0.purge_calls));
+  }
+  S.sm.verify_all("after purging");
+  free_all(S);
+}
+
 void run_os_profile(State& S) {
   const std::string p = S.cfg.profile;
   if (p == "faults") run_faults(S);
   else if (p == "ledger") run_ledger(S);
+  else if (S.cfg.scenario == "arenas") run_purge_arenas(S);
+  else if (S.cfg.scenario == "trickle") run_purge_trickle(S);
+  else if (S.cfg.scenario == "holes") run_purge_holes(S);
   else run_purge(S);
 }
 
